@@ -447,3 +447,214 @@ Proof.
   destruct (value_loop_roundtrip m ps _ [] st c t Hne Hwf Hlen Hc Hh Hr) as (sc' & H & Hr').
   rewrite H. cbn [obind app]. exists sc'. split; [reflexivity|exact Hr'].
 Qed.
+
+(* ==== tokens after whitespace, number and macro parts, general values ==== *)
+From Pybtex Require Import Proofs.CharFacts.
+
+Definition head_ok (p : char -> bool) (next : str) : Prop := match next with x :: _ => p x = false | [] => True end.
+
+Lemma span_app_gen p a next : forallb p a = true -> head_ok p next -> span p (a ++ next) = (a, next).
+Proof.
+  induction a as [|x a IH]; intros Ha Hn; cbn.
+  - destruct next as [|y t]; [reflexivity|]. cbn in Hn. cbn. rewrite Hn. reflexivity.
+  - cbn in Ha. apply andb_prop in Ha as [H1 H2]. rewrite H1, (IH H2 Hn). reflexivity.
+Qed.
+
+Lemma get_token_after_ws ps c ws x t p v r : forallb is_space ws = true -> is_space x = false ->
+  sc_rest c = ws ++ x :: t -> first_match ps (x :: t) = Some (p, v, r) ->
+  exists c', get_token ps c = (Tok p v, c') /\ sc_rest c' = r.
+Proof.
+  intros Hws Hx Hr Hf. unfold get_token, eat_whitespace. rewrite Hr, (span_app_stop is_space ws x t Hws Hx).
+  cbn [advance sc_rest]. rewrite Hf. eexists. split; reflexivity.
+Qed.
+
+Lemma get_token_none_after_ws ps c ws x t : forallb is_space ws = true -> is_space x = false ->
+  sc_rest c = ws ++ x :: t -> first_match ps (x :: t) = None ->
+  exists c', get_token ps c = (TokNone, c') /\ sc_rest c' = x :: t.
+Proof.
+  intros Hws Hx Hr Hf. unfold get_token, eat_whitespace. rewrite Hr, (span_app_stop is_space ws x t Hws Hx).
+  cbn [advance sc_rest]. rewrite Hf. eexists. split; reflexivity.
+Qed.
+
+Lemma required_after_ws ps st ws x t p v r : forallb is_space ws = true -> is_space x = false ->
+  sc_rest (p_sc st) = ws ++ x :: t -> first_match ps (x :: t) = Some (p, v, r) ->
+  exists sc', required ps st = Ret (p, v) (set_sc st sc') /\ sc_rest sc' = r.
+Proof.
+  intros Hws Hx Hr Hf. destruct (get_token_after_ws ps _ ws x t p v r Hws Hx Hr Hf) as (c' & Hg & Hc).
+  unfold required. rewrite Hg. exists c'. split; [reflexivity|exact Hc].
+Qed.
+
+Lemma optional_after_ws ps st ws x t p v r : forallb is_space ws = true -> is_space x = false ->
+  sc_rest (p_sc st) = ws ++ x :: t -> first_match ps (x :: t) = Some (p, v, r) ->
+  exists sc', optional ps st = Ret (Some (p, v)) (set_sc st sc') /\ sc_rest sc' = r.
+Proof.
+  intros Hws Hx Hr Hf. destruct (get_token_after_ws ps _ ws x t p v r Hws Hx Hr Hf) as (c' & Hg & Hc).
+  unfold optional. rewrite Hg. exists c'. split; [reflexivity|exact Hc].
+Qed.
+
+Lemma optional_none_after_ws ps st ws x t : forallb is_space ws = true -> is_space x = false ->
+  sc_rest (p_sc st) = ws ++ x :: t -> first_match ps (x :: t) = None ->
+  exists sc', optional ps st = Ret None (set_sc st sc') /\ sc_rest sc' = x :: t.
+Proof.
+  intros Hws Hx Hr Hf. destruct (get_token_none_after_ws ps _ ws x t Hws Hx Hr Hf) as (c' & Hg & Hc).
+  unfold optional. rewrite Hg. exists c'. split; [reflexivity|exact Hc].
+Qed.
+
+(* a NAME / a NUMBER is read whole when what follows cannot extend it *)
+Definition is_name (n : str) : bool :=
+  match n with c :: t => is_name_start c && forallb is_name_char t | [] => false end.
+Definition is_number (d : str) : bool := match d with [] => false | _ => forallb is_digit d end.
+
+Lemma match_name n next : is_name n = true -> head_ok is_name_char next -> match_pat P_NAME (n ++ next) = Some (n, next).
+Proof.
+  destruct n as [|c t]; [discriminate|]. cbn [is_name]. intros H Hn. apply andb_prop in H as [H1 H2].
+  cbn [app match_pat]. rewrite H1, (span_app_gen is_name_char t next H2 Hn). reflexivity.
+Qed.
+
+Lemma match_number d next : is_number d = true -> head_ok is_digit next -> match_pat P_NUMBER (d ++ next) = Some (d, next).
+Proof.
+  destruct d as [|c t]; [discriminate|]. cbn [is_number]. intros H Hn.
+  cbn [match_pat]. unfold nonempty_span. rewrite (span_app_gen is_digit (c :: t) next H Hn). reflexivity.
+Qed.
+
+Lemma head_ok_weaken next : head_ok is_name_char next -> head_ok is_digit next.
+Proof. destruct next; [auto|]. cbn. apply not_name_char_not_digit. Qed.
+
+Lemma name_head n : is_name n = true -> exists c t, n = c :: t /\ is_name_start c = true /\ is_name_char c = true.
+Proof.
+  destruct n as [|c t]; [discriminate|]. cbn. intros H. apply andb_prop in H as [H1 _].
+  exists c, t. repeat split; auto. unfold is_name_char. rewrite H1. reflexivity.
+Qed.
+
+(* surface parts of a value *)
+Inductive spart := SDelim (q : bool) (body : str) | SNumber (d : str) | SMacro (n : str).
+Definition part_text (p : spart) : str :=
+  match p with
+  | SDelim q b => opener q :: b ++ [closer q]
+  | SNumber d => d
+  | SMacro n => n
+  end.
+Definition wf_spart (macros : list (str * str)) (p : spart) : Prop :=
+  match p with
+  | SDelim q b => wf_body q b
+  | SNumber d => is_number d = true
+  | SMacro n => is_name n = true /\ assoc_get (lower n) macros <> None
+  end.
+(* what the part denotes: its body / its digits / the expansion of the macro (case-insensitive) *)
+Definition part_value (macros : list (str * str)) (p : spart) : str :=
+  match p with
+  | SDelim _ b => b
+  | SNumber d => d
+  | SMacro n => match assoc_get (lower n) macros with Some v => v | None => [] end
+  end.
+
+Lemma value_part_general m st ws p next :
+  forallb is_space ws = true -> wf_spart (p_macros st) p -> head_ok is_name_char next ->
+  sc_rest (p_sc st) = ws ++ part_text p ++ next ->
+  exists sc', parse_value_part m st = Ret (part_value (p_macros st) p) (set_sc st sc') /\ sc_rest sc' = next.
+Proof.
+  intros Hws Hwf Hn Hr. destruct p as [q b|d|n]; cbn [part_text part_value wf_spart] in *.
+  - apply (value_part_delimited m st q ws b next Hws Hwf). rewrite Hr. cbn [app]. rewrite <- app_assoc. reflexivity.
+  - destruct d as [|d0 d']; [discriminate|].
+    assert (Hd0 : is_digit d0 = true) by (cbn in Hwf; apply andb_prop in Hwf as [H _]; exact H).
+    assert (Hf : first_match [P_LIT c_quote; P_LIT c_lbrace; P_NUMBER; P_NAME] (d0 :: d' ++ next) = Some (P_NUMBER, d0 :: d', next)).
+    { cbn [first_match]. cbn [match_pat].
+      replace (d0 =? c_quote) with false by (symmetry; apply N.eqb_neq; intros ->; discriminate).
+      replace (d0 =? c_lbrace) with false by (symmetry; apply N.eqb_neq; intros ->; discriminate).
+      change (d0 :: d' ++ next) with ((d0 :: d') ++ next).
+      pose proof (match_number (d0 :: d') next Hwf (head_ok_weaken next Hn)) as Hm. cbn [match_pat] in Hm. rewrite Hm. reflexivity. }
+    destruct (required_after_ws _ st ws d0 (d' ++ next) _ _ _ Hws
+                ltac:(apply name_char_not_space; apply digit_is_name_char; exact Hd0) Hr Hf) as (sc' & H1 & H2).
+    unfold parse_value_part. rewrite H1. cbn [obind fst snd]. exists sc'. split; [reflexivity|exact H2].
+  - destruct Hwf as [Hname Hdef]. destruct (name_head n Hname) as (c & t & -> & Hs & Hc).
+    assert (Hf : first_match [P_LIT c_quote; P_LIT c_lbrace; P_NUMBER; P_NAME] (c :: t ++ next) = Some (P_NAME, c :: t, next)).
+    { cbn [first_match]. cbn [match_pat].
+      replace (c =? c_quote) with false by (symmetry; apply N.eqb_neq; intros ->; discriminate).
+      replace (c =? c_lbrace) with false by (symmetry; apply N.eqb_neq; intros ->; discriminate).
+      unfold nonempty_span. cbn [span]. rewrite (name_start_not_digit c Hs).
+      pose proof (match_name (c :: t) next Hname Hn) as Hm. cbn [app match_pat] in Hm. rewrite Hm. reflexivity. }
+    destruct (required_after_ws _ st ws c (t ++ next) _ _ _ Hws (name_char_not_space c Hc) Hr Hf) as (sc' & H1 & H2).
+    unfold parse_value_part. rewrite H1. cbn [obind fst snd]. unfold substitute_macro. cbn [p_macros set_sc].
+    destruct (assoc_get (lower (c :: t)) (p_macros st)) as [v|]; [|congruence].
+    exists sc'. split; [reflexivity|exact H2].
+Qed.
+
+(* a value: parts with whitespace before each part and before each '#' *)
+Definition gpart := (str * spart * str)%type.
+Definition render_gpart (p : gpart) : str := let '(ws, sp, ws') := p in ws ++ part_text sp ++ ws'.
+Definition wf_gpart (macros : list (str * str)) (p : gpart) : Prop :=
+  let '(ws, sp, ws') := p in forallb is_space ws = true /\ forallb is_space ws' = true /\ wf_spart macros sp.
+Definition gpart_value (macros : list (str * str)) (p : gpart) : str := let '(_, sp, _) := p in part_value macros sp.
+Fixpoint render_gparts (ps : list gpart) : str :=
+  match ps with
+  | [] => []
+  | [p] => render_gpart p
+  | p :: r => render_gpart p ++ c_hash :: render_gparts r
+  end.
+
+Lemma head_ok_ws_then ws' x t : forallb is_space ws' = true -> is_name_char x = false -> head_ok is_name_char (ws' ++ x :: t).
+Proof.
+  destruct ws' as [|w ws'']; cbn; [auto|]. intros H _. apply andb_prop in H as [H _]. apply space_not_name_char. exact H.
+Qed.
+
+Lemma value_loop_general m : forall ps fuel acc st c t,
+  ps <> [] -> Forall (wf_gpart (p_macros st)) ps -> (length ps < fuel)%nat ->
+  is_space c = false -> c <> c_hash -> is_name_char c = false ->
+  sc_rest (p_sc st) = render_gparts ps ++ c :: t ->
+  exists sc', parse_value_loop fuel m acc st = Ret (acc ++ map (gpart_value (p_macros st)) ps) (set_sc st sc') /\ sc_rest sc' = c :: t.
+Proof.
+  induction ps as [|p r IH]; intros fuel acc st c t Hne Hwf Hf Hc Hh Hnc Hr; [congruence|].
+  destruct fuel as [|f]; [lia|]. cbn [parse_value_loop].
+  inversion Hwf as [|? ? Hp Hwr]; subst.
+  destruct p as [[ws sp] ws']. destruct Hp as (Hws & Hws' & Hb).
+  destruct r as [|p2 r'].
+  - cbn [render_gparts render_gpart] in Hr. rewrite <- !app_assoc in Hr.
+    destruct (value_part_general m st ws sp (ws' ++ c :: t) Hws Hb (head_ok_ws_then ws' c t Hws' Hnc) Hr) as (sc1 & H1 & Hr1).
+    rewrite H1. cbn [obind].
+    destruct (optional_hash_none (set_sc st sc1) ws' c t Hws' Hc Hh Hr1) as (sc2 & H2 & Hr2).
+    rewrite H2. cbn [obind map gpart_value]. exists sc2. split; [|exact Hr2]. rewrite set_sc_set_sc. reflexivity.
+  - change (render_gparts ((ws, sp, ws') :: p2 :: r')) with (render_gpart (ws, sp, ws') ++ c_hash :: render_gparts (p2 :: r')) in Hr.
+    cbn [render_gpart] in Hr. rewrite <- !app_assoc in Hr. cbn [app] in Hr.
+    destruct (value_part_general m st ws sp (ws' ++ c_hash :: render_gparts (p2 :: r') ++ c :: t) Hws Hb
+                (head_ok_ws_then ws' c_hash _ Hws' eq_refl) Hr) as (sc1 & H1 & Hr1).
+    rewrite H1. cbn [obind].
+    destruct (optional_hash_some (set_sc st sc1) ws' _ Hws' Hr1) as (sc2 & H2 & Hr2).
+    rewrite H2. cbn [obind]. rewrite set_sc_set_sc.
+    destruct (IH f (acc ++ [part_value (p_macros st) sp]) (set_sc st sc2) c t ltac:(discriminate) Hwr ltac:(cbn [length] in *; lia) Hc Hh Hnc Hr2) as (sc3 & H3 & Hr3).
+    rewrite H3. exists sc3. split; [|exact Hr3]. rewrite set_sc_set_sc. cbn [map gpart_value p_macros set_sc]. rewrite <- app_assoc. reflexivity.
+Qed.
+
+Lemma render_gparts_length ps : ps <> [] -> (length ps <= length (render_gparts ps))%nat \/ True.
+Proof. auto. Qed.
+
+Lemma gpart_nonempty macros p : wf_gpart macros p -> (1 <= length (render_gpart p))%nat.
+Proof.
+  destruct p as [[ws sp] ws']. intros (_ & _ & H). cbn [render_gpart]. rewrite !app_length.
+  destruct sp as [q b|d|n]; cbn [part_text wf_spart] in *.
+  - cbn. lia.
+  - destruct d; [discriminate|cbn; lia].
+  - destruct H as [H _]. destruct n; [discriminate|cbn; lia].
+Qed.
+
+Lemma render_gparts_len macros ps : Forall (wf_gpart macros) ps -> (length ps <= length (render_gparts ps))%nat.
+Proof.
+  induction ps as [|p r IH]; intros H; [cbn; lia|]. inversion H as [|? ? Hp Hr]; subst.
+  pose proof (gpart_nonempty macros p Hp). destruct r as [|p2 r'].
+  - cbn [render_gparts length]. lia.
+  - change (render_gparts (p :: p2 :: r')) with (render_gpart p ++ c_hash :: render_gparts (p2 :: r')).
+    rewrite app_length. cbn [length]. specialize (IH Hr). cbn [length] in IH. lia.
+Qed.
+
+(* VALUE ROUND TRIP: parse_value on any '#'-concatenation of braced, quoted, bare-number and
+   macro parts *)
+Lemma value_roundtrip_general m ps st c t :
+  ps <> [] -> Forall (wf_gpart (p_macros st)) ps -> is_space c = false -> c <> c_hash -> is_name_char c = false ->
+  sc_rest (p_sc st) = render_gparts ps ++ c :: t ->
+  exists sc', parse_value m st = Ret tt (set_value (set_sc st sc') (map (gpart_value (p_macros st)) ps)) /\ sc_rest sc' = c :: t.
+Proof.
+  intros Hne Hwf Hc Hh Hnc Hr. unfold parse_value.
+  assert (Hlen : (length ps < S (length (sc_rest (p_sc st))))%nat).
+  { rewrite Hr, app_length. pose proof (render_gparts_len _ ps Hwf). lia. }
+  destruct (value_loop_general m ps _ [] st c t Hne Hwf Hlen Hc Hh Hnc Hr) as (sc' & H & Hr').
+  rewrite H. cbn [obind app]. exists sc'. split; [reflexivity|exact Hr'].
+Qed.
